@@ -26,7 +26,7 @@ ASSUMPTIONS = [
 ]
 
 REPS = ["bin", "bin8", "txt", "xml"]
-EXOTIC_LABELS = [["in-plane", "out-of-plane", "m-x", "m-y"], ["a b", "c d", "e f", "g  h"], ["|m|", "(q)", "<r>", "s+t"],
+EXOTIC_LABELS = [["in-plane", "out-of-plane", "m-x", "m-y"], ["a b", "c d", "e f", "g  h"], ["|m|", "(q)", "r~", "s+t"],
                  ["m.x", "m.y", "m.z", "m.w"], ["1st", "2nd", "3rd", "4th"], ["x-component", "y-component", "z-component", "t-c"],
                  ["\u03b1", "\u03b2", "\u03b3", "\u03b4"], ["a/b", "c", "d-e", "f_g-1"]]
 
